@@ -367,6 +367,9 @@ func c12Run(r *zsim.Run) {
 		return
 	}
 	o := r.Ops
+	// error replies (wrong type of key, wrong arity) are failures for the wrapper's per-address breaker; in the
+	// transparency class its random source is steered so that it never rejects (the breaker has a class of its own)
+	r.RandMode = 2
 	a := zredis.Start(r, "sim-a:6379")
 	b := zredis.Start(r, "sim-b:6379")
 	defer a.Close()
